@@ -55,5 +55,5 @@ def run(ctx):
                 return True
         return False
 
-    vlib.expect_reject(ctx, "syntax", "TextTrace", tp, wrong_raw, "last byte of a UTF-16 text string flipped")
-    vlib.expect_reject(ctx, "syntax", "TextTrace", tp, wrong_lib, "library read-back altered")
+    vlib.expect_reject(ctx, "syntax", "TextTrace", tp, wrong_raw, "last byte of a UTF-16 text string flipped", marker="text")
+    vlib.expect_reject(ctx, "syntax", "TextTrace", tp, wrong_lib, "library read-back altered", marker="text")
